@@ -211,6 +211,59 @@ FUSION_PAIRS = [
      "Select(EventDataset('ds'), lambda e: e.PRIM('A').Select(lambda j: j.pt() - j.eta()))"),
 ]
 
+# metadata whose values are lists: written with tuples in a python AST they reach the translator as tuples, through qastle text as lists
+MD_LISTY = {
+    "atlas": [
+        {"metadata_type": "add_cpp_function", "name": "userfn", "include_files": ["TVector2.h", "math.h"], "arguments": ["x", "y"],
+         "code": ["double t = x - y;", "double result = t * 2;"], "result_name": "result", "return_type": "double"},
+        {"metadata_type": "inject_code", "name": "blk2", "body_includes": ["one.h", "two.h"], "private_members": ["int m_a;", "int m_b;"], "link_libraries": ["libA", "libB"]},
+        {"metadata_type": "add_job_script", "name": "s1", "script": ["a = 1", "b = 2"], "depends_on": []},
+        {"metadata_type": "add_atlas_event_collection_info", "name": "MyJets", "include_files": ["my/Thing.h", "my/Other.h"], "container_type": "my::ThingContainer",
+         "element_type": "my::Thing", "contains_collection": True, "link_libraries": ["myThingLib", "myOtherLib"]},
+    ],
+    "cms_aod": [
+        {"metadata_type": "add_cpp_function", "name": "userfn", "include_files": ["TVector2.h", "math.h"], "arguments": ["x", "y"],
+         "code": ["double t = x - y;", "double result = t * 2;"], "result_name": "result", "return_type": "double"},
+        {"metadata_type": "add_cms_aod_event_collection_info", "name": "MyMuons", "include_files": ["my/Thing.h", "my/Other.h"], "container_type": "my::ThingContainer",
+         "element_type": "my::Thing", "contains_collection": True, "element_pointer": False},
+    ],
+    "cms_miniaod": [
+        {"metadata_type": "add_cpp_function", "name": "userfn", "include_files": ["TVector2.h", "math.h"], "arguments": ["x", "y"],
+         "code": ["double t = x - y;", "double result = t * 2;"], "result_name": "result", "return_type": "double"},
+        {"metadata_type": "add_cms_miniaod_event_collection_info", "name": "MyMuons", "include_files": ["my/Thing.h", "my/Other.h"], "container_type": "my::ThingContainer",
+         "element_type": "my::Thing", "contains_collection": True, "element_pointer": False},
+    ],
+}
+
+
+def lists_to_tuples(tree):
+    "every list inside a MetaData dictionary literal written as a tuple"
+    t = copy.deepcopy(tree)
+
+    class R(ast.NodeTransformer):
+        def __init__(self):
+            self.in_md = 0
+
+        def visit_Call(self, node):
+            is_md = isinstance(node.func, ast.Name) and node.func.id == "MetaData" and len(node.args) == 2
+            if is_md:
+                node.args[0] = self.visit(node.args[0])
+                self.in_md += 1
+                node.args[1] = self.visit(node.args[1])
+                self.in_md -= 1
+                return node
+            self.generic_visit(node)
+            return node
+
+        def visit_List(self, node):
+            self.generic_visit(node)
+            if self.in_md:
+                return ast.copy_location(ast.Tuple(elts=node.elts, ctx=ast.Load()), node)
+            return node
+    t = R().visit(t)
+    return ast.fix_missing_locations(t)
+
+
 MD_INJECT = {"metadata_type": "inject_code", "name": "blk", "body_includes": ["extra.h"]}
 MD_MTI = {"metadata_type": "add_method_type_info", "type_string": "CLS", "method_name": "pt", "return_type": "float"}
 
@@ -225,6 +278,15 @@ def base_queries(backend, tier):
         "Select(EventDataset('ds'), lambda e: e.PRIM('A').Select(lambda j: e.SEC('B').Select(lambda t: e.PRIM('A').Where(lambda k: k.pt() > t.pt() + j.pt()).Count())))",
         "Select(EventDataset('ds'), lambda e: e.PRIM('A').Select(lambda j: j.pt()).Aggregate(0.0, lambda acc, x: acc + x))",
         "Select(EventDataset('ds'), lambda e: e.PRIM('A').Select(lambda j: (lambda q: q.pt() + q.eta())(j)))",
+        # an outer parameter used AFTER an inner lambda that does not mention it (the inner one may legally take its name)
+        "Select(EventDataset('ds'), lambda e: e.PRIM('A').Select(lambda j: e.SEC('B').Where(lambda t: t.pt() > 1.5).Count() + j.eta()))",
+        "Select(EventDataset('ds'), lambda e: e.PRIM('A').Select(lambda j: e.SEC('B').Select(lambda t: t.pt()).Sum() * j.pt()))",
+        "Select(EventDataset('ds'), lambda e: e.PRIM('A').Where(lambda j: e.SEC('B').Where(lambda t: t.pt() > 1.5).Count() > 0 and j.pt() > 1.5).Select(lambda j: j.eta()))",
+        "Select(SelectMany(EventDataset('ds'), lambda e: e.PRIM('A')), lambda j: j.vals().Where(lambda v: v > 1).Count() + j.pt())",
+        "Select(EventDataset('ds'), lambda e: e.PRIM('A').Select(lambda j: j.pt() if e.SEC('B').Where(lambda t: t.pt() > 1).Count() > 0 else j.eta()))",
+        "Select(EventDataset('ds'), lambda e: e.PRIM('A').Select(lambda j: j.pt()).Sum() + e.SEC('B').Count())",
+        "Select(EventDataset('ds'), lambda e: (e.PRIM('A').Select(lambda j: j.pt()), e.SEC('B').Select(lambda t: t.pt()), e.PRIM('A').Count()))",
+        "Select(EventDataset('ds'), lambda e: e.PRIM('A').Select(lambda j: e.SEC('B').Select(lambda t: e.PRIM('A').Where(lambda k: k.pt() > t.pt()).Count() + t.eta()).Sum() + j.eta()))",
     ]
     qs = [q.replace("PRIM", v["prim"]).replace("SEC", v["sec"]) for q in qs]
     with_md = []
@@ -311,6 +373,19 @@ def main():
             for label, t in metadata_placements(tree):
                 items.append((b, "metadata", label, q, t))
             items.append((b, "qastle", "round-trip", q, None))
+        # wire format: list-valued metadata written as tuples in the python AST (qastle text has only lists)
+        for md in MD_LISTY[b]:
+            if md["metadata_type"] == "add_cpp_function":
+                body = f"lambda e: e.{v['prim']}('A').Select(lambda j: userfn(j.pt(), j.eta()))"
+            elif "event_collection_info" in md["metadata_type"]:
+                body = f"lambda e: e.{md['name']}('A').Count()"
+            else:
+                body = f"lambda e: e.{v['prim']}('A').Count()"
+            for q in (f"Select(MetaData(EventDataset('ds'), {md!r}), {body})",
+                      f"Select(MetaData(MetaData(EventDataset('ds'), {MD_LISTY[b][0]!r}), {md!r}), {body})"):
+                tree = ast.parse(q, mode="eval").body
+                items.append((b, "wire", "metadata-lists-as-tuples", q, lists_to_tuples(tree)))
+                items.append((b, "qastle", "round-trip", q, None))
         for sep, fused in FUSION_PAIRS:
             sep, fused = [x.replace("PRIM", v["prim"]).replace("SEC", v["sec"]) for x in (sep, fused)]
             items.append((b, "fusion", "separate-vs-fused", fused, sep))
